@@ -623,6 +623,18 @@ fn derive_func_op_shape(def: &FuncOpDef, symbol_table: &mut BTreeMap<Rc<str>, Sh
     }
 }
 
+/// Operands that do not go together are a fault of the expression combining
+/// them. The shapes carry the position their value was defined at, which for
+/// a name or a selector is in some earlier statement, so the error is moved to
+/// the operand in this expression. An error from inside an operand stays put.
+fn operand_mismatch(narrowed: Shape, left: &Shape, right: &Shape, def: &BinaryOpDef) -> Shape {
+    match (narrowed, left, right) {
+        (narrowed, Shape::TypeErr(_, _), _) | (narrowed, _, Shape::TypeErr(_, _)) => narrowed,
+        (Shape::TypeErr(_, msg), _, _) => Shape::TypeErr(def.right.pos().clone(), msg),
+        (narrowed, _, _) => narrowed,
+    }
+}
+
 impl DeriveShape for Expression {
     fn derive_shape(&self, symbol_table: &mut BTreeMap<Rc<str>, Shape>) -> Shape {
         match self {
@@ -733,13 +745,16 @@ impl DeriveShape for Expression {
                             // Narrow to check compatibility
                             let narrowed = left_shape.narrow(&right_shape, symbol_table);
                             if let Shape::TypeErr(_, _) = &narrowed {
-                                narrowed
+                                operand_mismatch(narrowed, &left_shape, &right_shape, def)
                             } else {
                                 Shape::Boolean(def.pos.clone())
                             }
                         }
                         // Math operators narrow types
-                        _ => left_shape.narrow(&right_shape, symbol_table),
+                        _ => {
+                            let narrowed = left_shape.narrow(&right_shape, symbol_table);
+                            operand_mismatch(narrowed, &left_shape, &right_shape, def)
+                        }
                     }
                 }
             }
